@@ -256,7 +256,8 @@ def build():
 
     for_items_shape(p)
     RD = lambda: ObjOf("NumpyArrayWrapper", order=OneOf("C", "F"), numpy_array_alignment_bytes=OneOf(16, None), shape=shape_kind,
-                       dtype=OpaqueOf("dtype", hasobject=False, itemsize=OneOf(0, 1, 2, 4, 8, 16)), allow_mmap=BOOL, subclass=OpaqueOf("cls"))
+                       # item sizes: 0 (np.dtype([]), 'V0'), the usual ones, and sizes around / above the 2**18-byte read buffer ('S300000', records with big sub-arrays)
+                       dtype=OpaqueOf("dtype", hasobject=False, itemsize=OneOf(0, 1, 2, 4, 8, 16, 2 ** 18 - 1, 2 ** 18, 2 ** 18 + 1, 300000)), allow_mmap=BOOL, subclass=OpaqueOf("cls"))
     unp = lambda **kw: OpaqueOf("unpicklerobj", file_handle=OpaqueOf("fh", name=STR), np=OpaqueOf("np"), **kw)
     p.add(Contract(
         NP, "NumpyArrayWrapper.read_array", props=["C19", "C14"], ghost=dict(POS=INT, COUNT=INT, PADBYTE=INT), setup=rsetup, globals=rglob,
